@@ -95,15 +95,24 @@ where
                 &new_value,
             );
 
-            // A `cycle_result` query returns its fallback while it participates in a cycle and
-            // its computed value otherwise. Joining or leaving a cycle therefore changes its
-            // value even when none of its own dependencies changed (they may all have been
-            // backdated), so `changed_at`, which is derived from the dependencies alone, would
-            // tell its dependents that nothing happened. Treat such a switch as a change now.
-            if C::CYCLE_STRATEGY == CycleRecoveryStrategy::FallbackImmediate
-                && !old_memo
+            // The `changed_at` of the new memo is derived from its dependencies alone. That is
+            // not enough when the value changes for a reason that is not a dependency: a
+            // `cycle_result` query returns its fallback while it participates in a cycle and its
+            // computed value otherwise, and a query whose value used to be specified by its
+            // creator computes its own value once the creator stops specifying it. In both
+            // cases every dependency may be unchanged (or backdated), so dependents that were
+            // verified together with the old memo would be told that nothing happened. A value
+            // that differs from the one of the previous memo must look changed to them.
+            let value_can_switch = C::CYCLE_STRATEGY == CycleRecoveryStrategy::FallbackImmediate
+                || matches!(
+                    old_memo.header.origin(),
+                    crate::zalsa_local::QueryOriginRef::Assigned(_)
+                );
+            if value_can_switch
+                && completed_query.revisions.changed_at <= old_memo.header.verified_at.load()
+                && old_memo
                     .value()
-                    .is_some_and(|old_value| C::values_equal(old_value, &new_value))
+                    .is_some_and(|old_value| !C::values_equal(old_value, &new_value))
             {
                 completed_query.revisions.changed_at = zalsa.current_revision();
             }
